@@ -203,7 +203,9 @@ func wordFields(data []byte) []Field {
 var tokenRepl = []string{"0", "1", "-1", "2", "255", "256", "65536", "2147483647", "2147483648", "4294967295",
 	"4294967296", "9223372036854775807", "-9223372036854775808", "1e9", "nan", "x", "1000000", "100000000", "-0", "",
 	"+5", "0x10", "1.5", "1e400", "-1e400", "1e-400", "Inf", "-inf", "NaN", ".", "-", "1_000", "0000000000000000000000000000000000000003",
-	"99999999999999999999999999999999999999999999999999999999999999999999999999999999", "3\x00", "\xff\xfe"}
+	"99999999999999999999999999999999999999999999999999999999999999999999999999999999", "3\x00", "\xff\xfe",
+	// around the 64-bit limits: values that only fit an unsigned parse wrap when narrowed
+	"9223372036854775808", "18446744073709551615", "18446744073709551616", "-9223372036854775809", "4294967297", "-2147483649"}
 
 func fieldValues(f Field, orig []byte) [][]byte {
 	var out [][]byte
